@@ -128,6 +128,10 @@ def check_bed(spec, ctx):
         exp_name = str(obj_spec.get(name_sel))
     elif name_sel == "guid":
         exp_name = str(obj.guid)
+    elif name_sel in ("transcript_guid", "feature_guid", "sequence_name", "product", "id", "name"):
+        # any attribute of the record may be named (documented: "the attribute to use as the name")
+        exp_name = str(getattr(obj, name_sel))
+        ctx.label("named_after_a_non_identifier_attribute")
     else:
         exp_name = name_sel
     ctx.eq("decoded_name", d["name"], exp_name)
@@ -139,11 +143,11 @@ def strat_bed(draw, tier="quick"):
     if kind == "tx":
         obj = draw(S.transcript_spec(max_exons=5, max_len=9, frameshift_prob=30, start_max=12, cds_overlap_prob=8, unstranded_prob=6, adjacent_exons=draw(st.booleans())))
         blocks = obj["exons"]
-        names = ["transcript_symbol", "transcript_id", "guid", "my name", "protein_id"]
+        names = ["transcript_symbol", "transcript_id", "guid", "my name", "protein_id", "transcript_guid", "sequence_name", "product", "id", "name"]
     else:
         obj = draw(S.feature_spec(max_blocks=5, max_len=9, start_max=12, adjacent_blocks=draw(st.booleans()), unstranded_prob=5))
         blocks = obj["blocks"]
-        names = ["feature_name", "feature_id", "guid", "custom"]
+        names = ["feature_name", "feature_id", "guid", "custom", "feature_guid", "sequence_name", "id", "name"]
     lo, hi = blocks[0][0], blocks[-1][1]
     n = hi + draw(st.integers(0, 6))
     g = draw(S.dna(n, n))
